@@ -65,7 +65,19 @@ def check(repo: Repo, rep: Report) -> None:
     for (rel, name), (wop, wargs) in BUFFERS.items():
         f = repo.fn(rel, name)
         calls = [n for n in f.all_nodes() if isinstance(n, ast.Call) and call_name(n) == wop]
-        ok = len(calls) == 1 and [u(a) for a in calls[0].args] + [u(k.value) for k in calls[0].keywords] == wargs
+        ok = len(calls) == 1
+        if ok:
+            got = [a for a in calls[0].args] + [k.value for k in calls[0].keywords]
+            ok = len(got) == len(wargs)
+            for a, want in zip(got, wargs):
+                role = want.rstrip("_")
+                if isinstance(a, ast.Name) and a.id == want:
+                    continue
+                # a local derived from the parameter of that role (e.g. skip_ = skip if skip is not None else count)
+                defs = [s_.node.value for s_ in sites(f) if isinstance(s_.node, (ast.Assign, ast.AnnAssign)) and s_.node.value is not None
+                        and isinstance(a, ast.Name) and u(s_.node.targets[0] if isinstance(s_.node, ast.Assign) else s_.node.target) == a.id]
+                if not (defs and any(isinstance(x, ast.Name) and x.id == role for d_ in defs for x in ast.walk(d_))):
+                    ok = False
         coll = [n for n in f.all_nodes() if isinstance(n, ast.Call) and call_name(n) in ("to_list", "to_iterable")]
         fm = [n for n in f.all_nodes() if isinstance(n, ast.Call) and call_name(n) == "flat_map"]
         rep.ob("F3-buffer-is-window", f, f"{name} = {wop}({', '.join(wargs)}) + flat_map(to_list)", ok and bool(coll) and bool(fm),
